@@ -152,7 +152,7 @@ def _line_scenarios():
                 if want_mn.startswith("lit:"):
                     mn_ok = _show(c, r.mnemonic) == want_mn[4:]
                 elif want_mn == "mn+,pn":
-                    mn_ok = _show(c, r.mnemonic) == "‹mn›,pn"
+                    mn_ok = _show(c, r.mnemonic) == "‹mn›.pn"      # the hint's comma is encoded as '.' (no separator inside a field)
                 else:
                     mn_ok = _show(c, r.mnemonic) == "‹" + want_mn + "›"
                 obs.append(simple_ob(base + ":POST-addr-mnemonic", func, "POST",
